@@ -24,6 +24,7 @@
            (/repo commit faca5e8e2, fixes/applied/C32-3-bad-block-nil-header.patch) *)
 From Coq Require Import NArith ZArith List Bool.
 From Common Require Import Outcome.
+From C31 Require Model.
 From C32 Require Import Gen.
 Import ListNotations.
 Local Open Scope N_scope.
@@ -303,7 +304,10 @@ Inductive event :=
 | EOrphan (stated : N)      (* refused: the parent header is not in the block state *)
 | EDup (stated : N)         (* refused: the header hash is in the block state already *)
 | ENothing (stated : N)     (* no header or no body: nothing to execute *)
-| EFinal (stated : N).      (* justified: SetFinalisedHash *)
+| EFinal (stated : N)       (* justified: SetFinalisedHash *)
+| EOrphanPruned (stated : N). (* refused: the parent header WAS in the block state but a finalisation
+                                 since then pruned its fork (only the pruning environment of
+                                 ModelPrune.v produces it) *)
 
 Record env := mkenv { known : list N; fin : N }.
 Definition knows (e : env) (h : N) : bool := existsb (N.eqb h) (known e).
@@ -497,12 +501,25 @@ Definition announce (bad : list N) (st : pstate) (who : N) (h : header) (best : 
   mkpr (mkps (p_env st) (new_incomplete (p_un st) h) (p_queue st ++ [QBody (h_hash h)]))
        [] false [(who, REP_GOSSIP_OK)] [].
 
+(* ---------------------------------------------------------------- NextActions *)
+(* the ascending requests FullSyncStrategy.NextActions plans with numOfTasks = n, best block number
+   best and peer target target (a uint32): none when uint32(best) >= target, else
+   NewAscendingBlockRequests(best+1, min(best+1+n*127, target), bootstrap) — the planner of C31 *)
+Definition next_asc (n best target : N) : list (N * N) :=
+  if target <=? best mod 4294967296 then [] else
+  let start := add64 best 1 in
+  let tb := add64 start ((n * 127) mod two64) in
+  let tb := if target <? tb then target else tb in
+  C31.Model.plan start tb.
+
 Inductive step :=
 | SAnnounce (h : header)                       (* unreadyBlocks.newIncompleteBlock directly *)
 | SKnown (h : N)
 | SFinal (n : N)
 | SProcess (rs : list result)
-| SAnnounceMsg (who : N) (h : header) (best : N).   (* OnBlockAnnounce *)
+| SAnnounceMsg (who : N) (h : header) (best : N)    (* OnBlockAnnounce *)
+| SNextActions (n best target : N).   (* NextActions: pops up to n queued requests (and plans
+                                         next_asc n best target, which does not touch the state) *)
 
 Definition do_step_with (srt : list (list bdata) -> list (list bdata))
   (chk frg lg : bool) (bad : list N) (st : pstate) (s : step) : outcome (pstate * option presult) :=
@@ -516,6 +533,7 @@ Definition do_step_with (srt : list (list bdata) -> list (list bdata))
     | Err c => Err c | Panic => Panic | OutOfFuel => OutOfFuel
     end
   | SAnnounceMsg who h best => let r := announce bad st who h best in Ok (pr_state r, Some r)
+  | SNextActions n _ _ => Ok (mkps (p_env st) (p_un st) (skipn (N.to_nat n) (p_queue st)), None)
   end.
 Definition do_step := do_step_with sort_frags.
 
